@@ -6,12 +6,13 @@ import ast
 from typing import List, Optional
 
 from ..astutil import (
-    call_name, calls_in, calls_named, dotted, enclosing_try, name_stores, test_atoms, unparse, walk_local, walk_stmts,
+    ancestors, call_name, calls_in, calls_named, dotted, enclosing_try, lexical_guards, name_stores, test_atoms, unparse,
+    walk_local, walk_stmts,
 )
 from ..report import Registry, sub
 from ._helpers_rules_d import (
     attr_store_nodes, call_nodes, callee_is, const_is, ends_with_name, guard_atom_set, is_catch_all, kw, lexically_inside,
-)
+)  # noqa: F401
 
 R = Registry(
     "C32",
@@ -23,7 +24,11 @@ R = Registry(
         "exit; SessionTransaction.rollback restores the snapshot and deactivates the transaction even when the "
         "connection rollback raises, and re-raises that error afterwards; a deactivated transaction refuses "
         "further work with the documented errors; _restore_snapshot undoes new / deleted / key-switched objects and "
-        "expires the rest."
+        "expires the rest, and does not re-key an object it has just made transient; InstanceState._expire (what the "
+        "rollback uses to discard in-memory changes) empties every unflushed-change buffer that a successful flush "
+        "empties, and _expire_attributes removes the expired key from each of them; Session-side maintenance of the "
+        "transaction's bookkeeping maps does not depend on the kind of the current transaction (a flush "
+        "subtransaction shares its parent's maps)."
     ),
     not_decided="equality of post-rollback object state with the database; behaviour of the DBAPI connection itself.",
 )
@@ -295,9 +300,10 @@ def r4(ctx):
               "self._parent._rollback_exception = sys.exc_info()[1] under _capture_exception", rb.loc)
 
 
-@R.rule("C32-R5", floor=5, template="T-FLOW",
+@R.rule("C32-R5", floor=6, template="T-FLOW",
         desc="_restore_snapshot expunges the new objects, restores key switches, reverts deletions, expires the "
-             "remaining identity-map states, and reads exactly the bookkeeping maps that _take_snapshot binds")
+             "remaining identity-map states, reads exactly the bookkeeping maps that _take_snapshot binds, and never "
+             "re-keys a state it has just expunged to transient")
 def r5(ctx):
     f = ctx.func(f"{ST}._restore_snapshot")
     body = f.node
@@ -356,6 +362,232 @@ def r5(ctx):
     ctx.check(read == set(BOOKKEEPING) and set(BOOKKEEPING) <= written, f"{f.key}:bookkeeping-agreement",
               f"_restore_snapshot reads {sorted(read)}, _take_snapshot binds {sorted(written & set(BOOKKEEPING))}; expected all of {list(BOOKKEEPING)}",
               "reads the four maps bound by _take_snapshot", f.loc)
+
+
+    # (f) objects made transient by the expunge step stay transient: any later re-keying `X.key = <key>` is
+    #     restricted to states that were not expunged
+    exp_calls = [c for c in calls_named(body, "_expunge_states") if c.args and mentions(c.args[0], "_new") and const_is(kw(c, "to_transient"), True)]
+    if exp_calls and isinstance(exp_calls[0].args[0], ast.Name):
+        E = exp_calls[0].args[0].id
+        g = ctx.cfg(f)
+        pm = f.module.parents()
+        exp_nodes = call_nodes(g, lambda c: c is exp_calls[0])
+        after = g.reachable(exp_nodes, include_starts=False)
+        bad = []
+        n_stores = 0
+        for nid in attr_store_nodes(g, "key"):
+            if nid not in after:
+                continue
+            st = g.node(nid).stmt
+            if const_is(st.value, None):
+                continue
+            for t in st.targets:
+                if isinstance(t, ast.Attribute) and t.attr == "key" and isinstance(t.value, ast.Name):
+                    n_stores += 1
+                    atoms = guard_atom_set(g, nid)
+                    if (f"{t.value.id} in {E}", False) not in atoms:
+                        bad.append(f"`{unparse(st)}` runs for every state of the loop, including those in `{E}` that were just expunged to transient")
+        ctx.check(not bad, f"{f.key}:new-objects-stay-transient",
+                  "; ".join(bad) + f": an object added in the rolled-back transaction ends up with an identity key (detached) instead of transient",
+                  f"{n_stores} re-keying store(s) after the expunge, each under `not in {E}`", f.loc)
+    else:
+        ctx.require(False, "_restore_snapshot: the set of expunged states is not bound to a local name")
+
+
+# ---------------------------------------------------------------------- C32-R6: unflushed-change buffers of a state
+STATE = "orm/state.py"
+IS = f"{STATE}::InstanceState"
+
+
+def _atom_nodes(test, pol=True):
+    if isinstance(test, ast.UnaryOp) and isinstance(test.op, ast.Not):
+        return _atom_nodes(test.operand, not pol)
+    if isinstance(test, ast.BoolOp) and ((isinstance(test.op, ast.And) and pol) or (isinstance(test.op, ast.Or) and not pol)):
+        out = []
+        for v in test.values:
+            out.extend(_atom_nodes(v, pol))
+        return out
+    return [(test, pol)]
+
+
+def _state_dict_names(fn_node, subject):
+    return {n for n, v, st in name_stores(fn_node) if v is not None and dotted(v) == f"{subject}.__dict__"}
+
+
+def _is_state_dict(e, subject, aliases):
+    return dotted(e) == f"{subject}.__dict__" or (isinstance(e, ast.Name) and e.id in aliases)
+
+
+def buffer_effects(fn_node, subject):
+    """{attr: [(kind, stmt)]} for whole-buffer effects on `<subject>`: kind 'empty' (`.clear()`, `del`, `__dict__.pop`)
+    or 'flag' (assignment of a constant)."""
+    al = _state_dict_names(fn_node, subject)
+    out = {}
+    for st in walk_stmts(fn_node.body):
+        if isinstance(st, ast.Expr) and isinstance(st.value, ast.Call) and isinstance(st.value.func, ast.Attribute):
+            c = st.value
+            recv = c.func.value
+            if c.func.attr == "clear" and not c.args and isinstance(recv, ast.Attribute) and dotted(recv.value) == subject:
+                out.setdefault(recv.attr, []).append(("empty", st))
+            elif c.func.attr == "pop" and c.args and isinstance(c.args[0], ast.Constant) and isinstance(c.args[0].value, str) and _is_state_dict(recv, subject, al):
+                out.setdefault(c.args[0].value, []).append(("empty", st))
+        elif isinstance(st, ast.Delete):
+            for t in st.targets:
+                if isinstance(t, ast.Subscript) and isinstance(t.slice, ast.Constant) and isinstance(t.slice.value, str) and _is_state_dict(t.value, subject, al):
+                    out.setdefault(t.slice.value, []).append(("empty", st))
+                elif isinstance(t, ast.Attribute) and dotted(t.value) == subject:
+                    out.setdefault(t.attr, []).append(("empty", st))
+        elif isinstance(st, ast.Assign) and isinstance(st.value, ast.Constant):
+            for t in st.targets:
+                if isinstance(t, ast.Attribute) and dotted(t.value) == subject:
+                    out.setdefault(t.attr, []).append(("flag", st))
+    return out
+
+
+@R.rule("C32-R6", floor=7, template="T-SIBLING",
+        desc="InstanceState: every unflushed-change buffer that a successful flush empties (_commit_all_states) is also "
+             "emptied by _expire -- the operation Session rollback uses to discard in-memory changes when the flush did "
+             "not complete -- conditioned at most on the buffer's own existence / the modified flag; _expire_attributes "
+             "removes the expired key from each container among them")
+def r6(ctx):
+    com = ctx.func(f"{IS}._commit_all_states")
+    loops = [n for n in walk_local(com.node) if isinstance(n, ast.For) and isinstance(n.iter, ast.Name) and n.iter.id in com.params
+             and isinstance(n.target, ast.Tuple) and n.target.elts and isinstance(n.target.elts[0], ast.Name)]
+    ctx.require(len(loops) == 1, "_commit_all_states: no single loop `for <state>, <dict> in <parameter>`")
+    subj = loops[0].target.elts[0].id
+    base = buffer_effects(loops[0], subj)
+    containers = sorted(a for a, effs in base.items() if any(k == "empty" for k, _ in effs))
+    flags = sorted(a for a, effs in base.items() if a not in containers)
+    ctx.require(len(containers) >= 2 and len(flags) >= 2, f"_commit_all_states empties {containers} and resets {flags}: fewer buffers than understood")
+    exp = ctx.func(f"{IS}._expire")
+    pm = exp.module.parents()
+    mine = buffer_effects(exp.node, "self")
+    al = _state_dict_names(exp.node, "self")
+    for a in containers + flags:
+        key = f"{exp.key}:discards:{a}"
+        want = "empty" if a in containers else "flag"
+        effs = [(k, st) for k, st in mine.get(a, []) if k == want]
+        if not effs:
+            ctx.violation(key, f"`{a}` is {'emptied' if want == 'empty' else 'reset'} after a successful flush (_commit_all_states) but not by _expire(): "
+                               f"after a failed flush + rollback the state keeps its unflushed `{a}`", exp.loc)
+            continue
+        extra = []
+        for k, st in effs:
+            for t, pol in lexical_guards(pm, st, stop=exp.node):
+                for at, ap in _atom_nodes(t, pol):
+                    exists = (isinstance(at, ast.Compare) and len(at.ops) == 1 and isinstance(at.ops[0], ast.In) and isinstance(at.left, ast.Constant)
+                              and at.left.value == a and _is_state_dict(at.comparators[0], "self", al) and ap)
+                    own = dotted(at) == f"self.{a}" and ap
+                    flag = ap and isinstance(at, ast.Attribute) and dotted(at.value) == "self" and at.attr in flags
+                    if not (exists or own or flag):
+                        extra.append(f"{'not ' if not ap else ''}{unparse(at)}")
+        ctx.check(not extra, key, f"_expire() discards `{a}` only when {extra}: otherwise the unflushed `{a}` survives a rollback",
+                  f"{want} in _expire (unconditional up to existence / modified flag)", exp.loc)
+    # per-key sibling
+    ea = ctx.func(f"{IS}._expire_attributes")
+    pm = ea.module.parents()
+    kloops = [n for n in walk_local(ea.node) if isinstance(n, ast.For) and isinstance(n.iter, ast.Name) and n.iter.id in ea.params and isinstance(n.target, ast.Name)]
+    ctx.require(len(kloops) == 1, "_expire_attributes: no single loop over the attribute-name parameter")
+    lp = kloops[0]
+    K = lp.target.id
+    alias = {}
+    for n, v, st in name_stores(ea.node):
+        if v is None:
+            continue
+        if isinstance(v, ast.Attribute) and dotted(v.value) == "self":
+            alias[n] = v.attr
+        elif (isinstance(v, ast.Call) and isinstance(v.func, ast.Attribute) and v.func.attr == "get" and dotted(v.func.value) == "self.__dict__"
+              and v.args and isinstance(v.args[0], ast.Constant)):
+            alias[n] = v.args[0].value
+
+    def buf_of(e):
+        if isinstance(e, ast.Attribute) and dotted(e.value) == "self":
+            return e.attr
+        if isinstance(e, ast.Name):
+            return alias.get(e.id)
+        return None
+
+    for a in containers:
+        key = f"{ea.key}:discards-key:{a}"
+        hits = []
+        for st in walk_stmts(lp.body):
+            if isinstance(st, ast.Expr) and isinstance(st.value, ast.Call) and isinstance(st.value.func, ast.Attribute) and st.value.func.attr == "pop":
+                c = st.value
+                if buf_of(c.func.value) == a and c.args and isinstance(c.args[0], ast.Name) and c.args[0].id == K:
+                    hits.append(st)
+            elif isinstance(st, ast.Delete):
+                for t in st.targets:
+                    if isinstance(t, ast.Subscript) and buf_of(t.value) == a and isinstance(t.slice, ast.Name) and t.slice.id == K:
+                        hits.append(st)
+        if not hits:
+            ctx.violation(key, f"_expire_attributes() does not remove the expired key from `{a}` although _expire() empties it: "
+                               f"an unflushed change of an expired attribute is applied again on the next load", ea.loc)
+            continue
+        extra = []
+        for st in hits:
+            for t, pol in lexical_guards(pm, st, stop=lp):
+                for at, ap in _atom_nodes(t, pol):
+                    own = ap and buf_of(at) == a
+                    member = ap and isinstance(at, ast.Compare) and len(at.ops) == 1 and isinstance(at.ops[0], ast.In) and buf_of(at.comparators[0]) == a
+                    if not (own or member):
+                        extra.append(f"{'not ' if not ap else ''}{unparse(at)}")
+        ctx.check(not extra, key, f"the key is removed from `{a}` only when {extra}", f"`{a}`.pop({K}) for every expired key", ea.loc)
+
+
+# ---------------------------------------------------------------------- C32-R7: Session-side bookkeeping
+def _tx_exprs(fn_node):
+    """local names bound to `<x>._transaction`."""
+    return {n for n, v, st in name_stores(fn_node) if v is not None and isinstance(v, ast.Attribute) and v.attr == "_transaction"}
+
+
+def _is_tx(e, aliases):
+    return (isinstance(e, ast.Attribute) and e.attr == "_transaction") or (isinstance(e, ast.Name) and e.id in aliases)
+
+
+@R.rule("C32-R7", floor=5, template="T-GUARD/T-SIBLING",
+        desc="every place outside SessionTransaction that maintains the current transaction's bookkeeping maps "
+             "(<session>._transaction._new/_deleted/_dirty/_key_switches) does so whenever a transaction exists: no "
+             "guard reads a property of that transaction (kind, nesting, parent, state) -- flush subtransactions share "
+             "their parent's maps, so _restore_snapshot relies on them being maintained from any level")
+def r7(ctx):
+    found = 0
+    for m in ctx.index.all_modules():
+        if not m.relpath.startswith("orm/") or "_transaction" not in m.source:
+            continue
+        pm = None
+        for f in ctx.index.all_functions(m):
+            if f.cls is not None and f.cls.name == "SessionTransaction":
+                continue
+            if f.type_only:
+                continue
+            al = _tx_exprs(f.node)
+            sites = {}
+            for n in walk_local(f.node):
+                if isinstance(n, ast.Attribute) and n.attr in BOOKKEEPING and _is_tx(n.value, al):
+                    sites.setdefault(n.attr, []).append(n)
+            if not sites:
+                continue
+            ctx.functions_analysed.add(f.key)
+            pm = pm or m.parents()
+            g = ctx.cfg(f)
+            for fld, nodes in sorted(sites.items()):
+                bad = []
+                for n in nodes:
+                    guards = list(lexical_guards(pm, n, stop=f.node))
+                    for nid in g.nodes_containing(n):
+                        guards.extend(g.edge_guards(nid))
+                    for t, pol in guards:
+                        for a in ast.walk(t):
+                            if isinstance(a, ast.Attribute) and _is_tx(a.value, al) and a.attr not in BOOKKEEPING:
+                                txt = f"`{unparse(a)}` (in `{unparse(t)}`)"
+                                if txt not in bad:
+                                    bad.append(txt)
+                found += 1
+                ctx.check(not bad, f"{f.key}:{fld}:any-transaction-kind",
+                          f"the transaction's {fld} map is maintained only when {', '.join(bad)}: while a flush subtransaction is current "
+                          f"(it shares the enclosing transaction's {fld}) the entry is left stale and _restore_snapshot acts on it",
+                          f"{len(nodes)} access(es), conditioned on the existence of a transaction only", f.loc)
+    ctx.require(found >= 1, "no Session-side access to the transaction bookkeeping maps found")
 
 
 # ---------------------------------------------------------------------- self-test battery
